@@ -36,7 +36,10 @@ func genC17(r *Rng, n int, tier string, emit func(Case)) {
 			if r.Chance(1, 3) {
 				// a partial that writes into the data it was given and prints what it sees: every partial of one request must see
 				// the data as the caller passed it, not what an earlier partial left behind
-				switch r.Intn(3) {
+				switch r.Intn(4) {
+				case 3:
+					// `hints` is a nil slice in the data (an unset list): an empty list, and every render's own
+					kids = append(kids, codeNode("hints.length", true, true), codeNode("hints.push('"+tag+"')", false, false), codeNode("hints.join('+')", true, true))
 				case 0:
 					kids = append(kids, codeNode("cart.label = 'items: ' + cart.n", false, false), codeNode("cart.label", true, true))
 				case 1:
@@ -82,7 +85,7 @@ func genC17(r *Rng, n int, tier string, emit func(Case)) {
 				req = append(req, []string{"nope", "", "../" + tpl, "p1/"}[r.Intn(4)])
 			}
 		}
-		data := J{"x": fmt.Sprintf("<v%d>", r.Intn(100)), "y": r.Intn(50), "cart": J{"n": r.Intn(9), "label": "n/a"}, "crumbs": []interface{}{"Home"},
+		data := J{"x": fmt.Sprintf("<v%d>", r.Intn(100)), "y": r.Intn(50), "cart": J{"n": r.Intn(9), "label": "n/a"}, "crumbs": []interface{}{"Home"}, "hints": J{"__go": "nilslice"},
 			"lf": J{"__go": "leafy"}, "bad": J{"v": J{"__go": "nan"}}}
 		cs := Case{"kind": "partials", "model_needs_impl": true, "files": files, "tpl": tpl, "req": req, "data": data}
 		if r.Chance(1, 4) {
